@@ -390,7 +390,8 @@ def excluded_by_property(src, err, asts):
     if src in asts and ("overflowed its stack" in err or "stack overflow" in err):
         from . import gen
         ev = gen.evaluate(asts[src])
-        if ev.get("status") == "unspecified" and ev.get("reason") in ("self-containing container", "python recursion"):
+        if ev.get("cyclic"):
+            # the program made a container contain itself before it died
             return "self-containing"
     return None
 
